@@ -52,7 +52,8 @@ class Eqv(Harness):
              dict(pair="bounds-form", n=2), dict(pair="dict", typ="ineq"), dict(pair="dict", typ="eq"),
              dict(pair="two-sided-nl"), dict(pair="two-sided-lin"),
              dict(pair="regroup-lin"), dict(pair="regroup-nl"),
-             dict(pair="scale", n=1, lin=1, nl=1), dict(pair="scale", n=2, lin=1, nl=1)]
+             dict(pair="scale", n=1, lin=1, nl=1), dict(pair="scale", n=2, lin=1, nl=1),
+             dict(pair="scale", n=1, lin=2, nl=1, fixed=True)]
         if tier == "thorough":
             # (regrouping TWO-SIDED rows permutes the internal rows - lower sides of an object first - which the
             # interface comparison would flag although it is a representation difference; not explored)
@@ -176,27 +177,31 @@ class Eqv(Harness):
                 pbA = self._build(ctx, n, x0, None, consA, spy(logA, "f", F), False, logA)
                 pbB = self._build(ctx, n, x0, None, consB, spy(logB, "f", F), False, logB)
                 mapB = lambda xb: xb
-            else:   # scale
+            else:   # scale (optionally with one more variable fixed by equal bounds, eliminated by hand in B)
                 n = shape["n"]
                 box = [(-1.0, 3.0), (0.5, 2.5)][:n]
                 fac = [0.5 * (u - l) for l, u in box]
                 sh = [0.5 * (u + l) for l, u in box]
-                x0 = [fin(f"x0{i}") for i in range(n)]
-                toX = lambda ys: [lift(ys[i]) * fac[i] + sh[i] if ctx.sym else ys[i] * fac[i] + sh[i] for i in range(n)]
+                fx = [fin("fixval")] if shape.get("fixed") else []          # value of the fixed variable (last)
+                x0 = [fin(f"x0{i}") for i in range(n)] + ([fin("x0f")] if fx else [])
+                toX = lambda ys: [lift(ys[i]) * fac[i] + sh[i] if ctx.sym else ys[i] * fac[i] + sh[i] for i in range(n)] + fx
                 consA, consB = [], []
                 for r in range(shape["lin"]):
-                    row = grid[r % 2][:n]
+                    row = (grid[r % 2] + [0.75])[:n] + ([1.5 - r] if fx else [])
                     b = fin(f"b{r}")
-                    consA.append(M.LinearConstraint(ctx.arr([row]), ctx.arr([-INF]), ctx.arr([b])))
+                    eq = (r == 1)
+                    consA.append(M.LinearConstraint(ctx.arr([row]), ctx.arr([b if eq else -INF]), ctx.arr([b])))
                     rowB = [row[i] * fac[i] for i in range(n)]
                     bB = b - sum(row[i] * sh[i] for i in range(n))
-                    consB.append(M.LinearConstraint(ctx.arr([rowB]), ctx.arr([-INF]), ctx.arr([bB])))
+                    if fx:
+                        bB = bB - row[n] * fx[0]
+                    consB.append(M.LinearConstraint(ctx.arr([rowB]), ctx.arr([bB if eq else -INF]), ctx.arr([bB])))
                 for j in range(shape["nl"]):
                     lj = fin(f"nl{j}")
                     consA.append(M.NonlinearConstraint(spy(logA, f"c{j}", lambda xs, j=j: Cn(j, xs)), ctx.arr([-INF]), ctx.arr([lj])))
                     consB.append(M.NonlinearConstraint(spy(logB, f"c{j}", lambda ys, j=j: Cn(j, toX(ys))), ctx.arr([-INF]), ctx.arr([lj])))
                 x0B = [(lift(x0[i]) - sh[i]) / fac[i] if ctx.sym else (x0[i] - sh[i]) / fac[i] for i in range(n)]
-                pbA = self._build(ctx, n, x0, M.Bounds(ctx.arr([b_[0] for b_ in box]), ctx.arr([b_[1] for b_ in box])), consA,
+                pbA = self._build(ctx, n + len(fx), x0, M.Bounds(ctx.arr([b_[0] for b_ in box] + fx), ctx.arr([b_[1] for b_ in box] + fx)), consA,
                                   spy(logA, "f", F), True, logA)
                 pbB = self._build(ctx, n, x0B, M.Bounds(ctx.arr([-1.0] * n), ctx.arr([1.0] * n)), consB,
                                   spy(logB, "f", lambda ys: F(toX(ys))), False, logB)
